@@ -475,6 +475,88 @@ def impl_oracle(binary, globs, regexes, inputs):
     return gv, gm, ri, rm
 
 
+# ------------------------------------------------------------------ independent glob semantics (a subset)
+
+def py_glob_regex(g):
+    """the documented meaning of a glob on a subset where it is unambiguous: printable ASCII without
+    '/', '\\' or '**'; `*` any run of characters, `?` one character, `[set]` / `[!set]` one character of
+    (not of) the set with a-z ranges, `{x,y,}` alternation (empty alternatives allowed, no nesting), any
+    other character itself. Returns a compiled Python regex or None when [g] is outside the subset."""
+    import re as _re
+    if not g or any(not (32 <= ord(c) < 127) for c in g) or "/" in g or "\\" in g or "**" in g:
+        return None
+    out, i, depth = [], 0, 0
+    while i < len(g):
+        c = g[i]
+        if c == "*":
+            out.append(".*")
+        elif c == "?":
+            out.append(".")
+        elif c == "[":
+            j = i + 1
+            neg = j < len(g) and g[j] in "!^"
+            if neg:
+                j += 1
+            k = j
+            if k < len(g) and g[k] == "]":
+                k += 1
+            while k < len(g) and g[k] != "]":
+                k += 1
+            if k >= len(g):
+                return None
+            body = g[j:k]
+            if not body or "[" in body or body.startswith("-") or body.endswith("-") or "^" in body or "]" in body:
+                return None
+            cls = ""
+            m = 0
+            while m < len(body):
+                if m + 2 < len(body) and body[m + 1] == "-":
+                    if body[m] > body[m + 2]:
+                        return None
+                    cls += _re.escape(body[m]) + "-" + _re.escape(body[m + 2])
+                    m += 3
+                else:
+                    cls += _re.escape(body[m])
+                    m += 1
+            out.append("[" + ("^" if neg else "") + cls + "]")
+            i = k
+        elif c == "{":
+            if depth:
+                return None
+            depth = 1
+            out.append("(?:")
+        elif c == "}":
+            if not depth:
+                return None
+            depth = 0
+            out.append(")")
+        elif c == "," and depth:
+            out.append("|")
+        else:
+            out.append(_re.escape(c))
+        i += 1
+    if depth:
+        return None
+    return _re.compile("".join(out), _re.S)
+
+
+def glob_semantics_disagreements(gv, gm):
+    """pairs (glob, input) of the implementation's table that contradict py_glob_regex"""
+    bad, n = [], 0
+    cache = {}
+    for (g, inp), v in gm.items():
+        if g not in cache:
+            cache[g] = py_glob_regex(g) if gv.get(g) else None
+        rx = cache[g]
+        if rx is None or any(not (32 <= ord(c) < 127) for c in inp):
+            continue
+        n += 1
+        want = rx.fullmatch(inp) is not None
+        if want != bool(v):
+            bad.append(dict(glob=g, input=inp, impl=bool(v), documented=want))
+    return bad, n
+
+
 # ------------------------------------------------------------------ model side
 
 PARSE_IMPORTS = ["Base.Str", "Model.FiltersetAst", "Model.FiltersetParse"]
